@@ -1407,7 +1407,72 @@ impl<'a, C: MlsConfig> Hist<'a, C> {
             }
             self.w.hash_caches.insert(i, (tree_now, cache_now));
         }
+        // C08, parent hashes: (1) every member's tree has, for every populated parent, a structural parent-hash witness
+        // candidate with pairwise distinct stored values (`phvalid`, a necessary condition of RFC 9420 7.9.2 evaluated by the
+        // model); (2) for a commit that only carries a path (no proposal changed the tree) the new layer is the model's
+        // `update_parent_hashes` applied to the previous layer (`phupd`), compared as partitions of equal bytes
+        let pure_path = has_path && edits.rm.is_empty() && edits.up.is_empty() && edits.add.is_empty();
+        for &i in &now {
+            let nodes: Vec<Option<Node>> = self.w.group(i).verif_nodes().iter().cloned().collect();
+            let layer = ph_layer(&nodes);
+            let tree_now = tree_str(&self.w.anodes(i));
+            // numbering by first appearance, 0 = the empty parent hash
+            let number = |layer: &[Option<Vec<u8>>], seed: &mut Vec<Vec<u8>>| -> String {
+                layer
+                    .iter()
+                    .map(|c| match c {
+                        None => "-".to_string(),
+                        Some(b) if b.is_empty() => "0".to_string(),
+                        Some(b) => {
+                            let p = match seed.iter().position(|x| x == b) {
+                                Some(p) => p,
+                                None => {
+                                    seed.push(b.clone());
+                                    seed.len() - 1
+                                }
+                            };
+                            (p + 1).to_string()
+                        }
+                    })
+                    .collect::<Vec<_>>()
+                    .join("|")
+            };
+            let mut seen = vec![];
+            let cells = number(&layer, &mut seen);
+            if let Some(qa) = self.tree_qa.as_deref_mut() {
+                qa.put(&format!("phvalid {tree_now} {}", if cells.is_empty() { "-".to_string() } else { cells }), "ok");
+            }
+            if i == c && pure_path {
+                if let Some(prev) = self.w.ph_layers.get(&i) {
+                    if prev.len() == layer.len() {
+                        // the layer at the moment the path keys are installed: previous values; a parent filled in by this path
+                        // starts with the empty parent hash; a node blanked... (none in a pure path commit)
+                        let before: Vec<Option<Vec<u8>>> = nodes
+                            .iter()
+                            .zip(prev.iter())
+                            .enumerate()
+                            .map(|(k, (n, pv))| match n {
+                                None => None,
+                                Some(Node::Parent(_)) => Some(pv.clone().unwrap_or_default()),
+                                Some(Node::Leaf(_)) => if k as u32 == 2 * new_cleaf { None } else { pv.clone() },
+                            })
+                            .collect();
+                        let mut seen2 = vec![];
+                        let in_cells = number(&before, &mut seen2);
+                        let out_cells = number(&layer, &mut seen2);
+                        if let Some(qa) = self.tree_qa.as_deref_mut() {
+                            qa.put(&format!("phupd {tree_now} {in_cells} {new_cleaf}"), &out_cells);
+                        }
+                    }
+                }
+            }
+            self.w.ph_layers.insert(i, layer);
+        }
         // members that left keep no entry
+        let gone: Vec<usize> = self.w.ph_layers.keys().copied().filter(|k| !now.contains(k)).collect();
+        for k in gone {
+            self.w.ph_layers.remove(&k);
+        }
         let gone: Vec<usize> = self.w.hash_caches.keys().copied().filter(|k| !now.contains(k)).collect();
         for k in gone {
             self.w.hash_caches.remove(&k);
